@@ -2718,6 +2718,129 @@ int32 matrixValidateCertsExt(psPool_t *pool, psX509Cert_t *subjectCerts,
 
 /******************************************************************************/
 /*
+    Severity of a certificate alert.  The application's certificate callback
+    is given ONE alert for the whole chain; a callback that tolerates the alert
+    it is given (typically certificate_expired on a device without a clock, or
+    certificate_unknown when it checks the name itself) must never thereby
+    tolerate a worse failure of the same chain.
+ */
+static int32 certAlertRank(int32 alert)
+{
+    switch (alert)
+    {
+    case SSL_ALERT_NONE:
+        return 0;
+    case SSL_ALERT_CERTIFICATE_EXPIRED:
+        return 1;
+    case SSL_ALERT_CERTIFICATE_UNKNOWN:
+        return 2;
+    default:
+        return 3;
+    }
+}
+
+static void raiseCertAlert(ssl_t *ssl, int32 alert)
+{
+    if (certAlertRank(alert) > certAlertRank(ssl->err))
+    {
+        ssl->err = alert;
+    }
+}
+
+/*
+    Convert the result of matrixValidateCertsExt on the peer chain (authStatus
+    and authFailFlags of every certificate, max_verify_depth, no CA loaded)
+    into the pending alert ssl->err: the most severe failure of the chain, the
+    first one in chain order among equally severe ones.  Used by every
+    protocol version.
+ */
+void matrixSslSetCertChainAlert(ssl_t *ssl, psX509Cert_t *leaf)
+{
+    psX509Cert_t *cert;
+    int32 pathLen = 0;
+    int32 maxDepth = ssl->validateCertsOpts.max_verify_depth;
+    int32 other;
+
+    for (cert = leaf; cert != NULL; cert = cert->next)
+    {
+        ++pathLen;
+        if (maxDepth > 0)
+        {
+            /*  A maximum verification depth has been specified in session
+                opts.  We don't have the root in cert->next: if the cert is
+                _not_ self-signed, it must have a valid root cert as the
+                issuer; take that root into account. */
+            if (pathLen > maxDepth ||
+                (pathLen == maxDepth &&
+                 memcmpct(&cert->subject, &cert->issuer,
+                        sizeof(cert->subject))))
+            {
+                psTraceErrr("Error: max_verify_depth exceeded\n");
+                raiseCertAlert(ssl, SSL_ALERT_UNKNOWN_CA);
+                cert->authStatus |= PS_CERT_AUTH_FAIL_PATH_LEN;
+                cert->authFailFlags |= PS_CERT_AUTH_FAIL_VERIFY_DEPTH_FLAG;
+            }
+        }
+        switch (cert->authStatus)
+        {
+        case PS_CERT_AUTH_PASS:
+            break;
+        case PS_CERT_AUTH_FAIL_REVOKED:
+            raiseCertAlert(ssl, SSL_ALERT_CERTIFICATE_REVOKED);
+            break;
+        case PS_CERT_AUTH_FAIL_EXTENSION:
+            /* The math and basic constraints matched.  This case is
+                for X.509 extension mayhem; every flagged problem counts */
+            other = cert->authFailFlags & ~(PS_CERT_AUTH_FAIL_DATE_FLAG |
+                PS_CERT_AUTH_FAIL_SUBJECT_FLAG);
+            if (other || !(cert->authFailFlags &
+                    (PS_CERT_AUTH_FAIL_DATE_FLAG |
+                     PS_CERT_AUTH_FAIL_SUBJECT_FLAG)))
+            {
+                /* keyUsage / extendedKeyUsage problem: in the chain, or at
+                    the link to the CA we did find */
+                raiseCertAlert(ssl, cert->next != NULL ?
+                    SSL_ALERT_BAD_CERTIFICATE : SSL_ALERT_ILLEGAL_PARAMETER);
+            }
+            if (cert->authFailFlags & PS_CERT_AUTH_FAIL_SUBJECT_FLAG)
+            {
+                /* expectedName was giving to NewSession but couldn't
+                    match what the peer gave us */
+                raiseCertAlert(ssl, SSL_ALERT_CERTIFICATE_UNKNOWN);
+            }
+            if (cert->authFailFlags & PS_CERT_AUTH_FAIL_DATE_FLAG)
+            {
+                raiseCertAlert(ssl, SSL_ALERT_CERTIFICATE_EXPIRED);
+            }
+            break;
+        case PS_CERT_AUTH_FAIL_BC:
+        case PS_CERT_AUTH_FAIL_DN:
+            /* These two are pre-math tests.  In the middle of the chain it
+                means the chain couldn't even validate itself.  At the end it
+                means a matching CA could not be found */
+            raiseCertAlert(ssl, cert->next != NULL ?
+                SSL_ALERT_BAD_CERTIFICATE : SSL_ALERT_UNKNOWN_CA);
+            break;
+        default:
+            /* PS_CERT_AUTH_FAIL_SIG, _AUTHKEY, _PATH_LEN and anything else
+                that is not a pass (not examined, generic failure) */
+            raiseCertAlert(ssl, SSL_ALERT_BAD_CERTIFICATE);
+            break;
+        }
+    }
+
+    /*  A chain that is terminated with a self-signed cert validates
+        internally without any CA loaded.  The fact that no CA of this peer
+        has vouched for it is an UNKNOWN_CA failure, whatever else (expiry,
+        name) is wrong with the chain. */
+    if (ssl->keys == NULL || ssl->keys->CAcerts == NULL)
+    {
+        raiseCertAlert(ssl, SSL_ALERT_UNKNOWN_CA);
+    }
+}
+
+/******************************************************************************/
+/*
     Calls a user defined callback to allow for manual validation of the
     certificate.
  */
